@@ -27,6 +27,10 @@ def path? (k : Consts) : List String → Option CallPath
   | ["execute", o] => (unhex o).map .viaExecute
   | ["packet"] => some .inPacket
   | ["module", a] => (unhex a).map .module
+  | ["delegatecall", o, c] => do let o ← unhex o; let c ← unhex c; pure (.delegate o c)
+  | ["callcode", o, c] => do let o ← unhex o; let c ← unhex c; pure (.callcode o c)
+  | ["staticcall", o, c] => do let o ← unhex o; let c ← unhex c; pure (.static o c)
+  | ["ctor", o, c] => do let o ← unhex o; let c ← unhex c; pure (.ctor o c)
   | _ => let _ := k; none
 
 open TM.Guard in
@@ -57,6 +61,12 @@ def stepGuard (k : Consts) (fs : List String) : Option (Consts × String) :=
     | _, _ => none
   | "whoami" :: path => (path? k path).map (fun cp => (k, "caller " ++ hex (callerOf k cp)))
   | ["const", _, _] => some (k, "ok")
+  | ["emit", _origin, c] =>
+    -- a PacketSent-shaped log emitted by contract c: drives the keeper only if c is the packet contract
+    (unhex c).map (fun c => (k, if hookAccepts k c then "sent" else "ignored"))
+  | ["spoof", _] => some (k, "unchanged")   -- agent.send through execute by a user: no privileged state may change
+  | ["evmrestart"] => some (k, "ok")        -- guards live in code + constants: a restart / upgrade changes neither
+  | ["evmupgrade"] => some (k, "ok")
   | _ => none
 
 def tripleStr (t : Triple) : String := hex t.src ++ "/" ++ hex t.dst ++ "/" ++ toString t.seq
@@ -143,6 +153,7 @@ def stepMsg (st : St) (line : String) : St × String :=
         | none => (st, "bad-op")
       | _ => (st, "bad-op")
     | _, _, _ => (st, "bad-op")
+  | ["restart", _mode] => (st, "ok")     -- module-level or whole-app: the identity on everything C06 talks about
   | "regdry" :: _mode :: addrOK :: addr :: nc :: rest =>
     -- mode (drop | fail | gov) is how the harness discards the context branch; the model: identity on the state
     match bool? addrOK, unhex addr, nc.toNat? with
